@@ -33,6 +33,17 @@ class ObjGen:
         if extra:
             self.make_class("D", "A")
         self.funcs = [self.tag_fn()]
+        # a function whose local object dies because the function executes 'return' (from inside a branch, a loop, or at the end)
+        with_d = [c for c in self.order if any(self.classes[a]["dtor"] for a in self.ancestors(c))]
+        self.scoped = None
+        if with_d and r.random() < 0.7:
+            c = r.choice(with_d)
+            self.scoped = c
+            self.funcs.append(Func("scoped", [Param(P("int"), "k")], P("int"), [
+                Decl(C(c), "tmp", New(c)),
+                If(Bin(">", Var("k"), I(1)), [Ret(Bin("+", Var("k"), I(1)))]),
+                While(Bin(">", Var("k"), I(0)), [Decl(C(c), "inner", New(c)), Ret(Bin("*", Var("k"), I(10)))]),
+                Echo(S("scoped end")), Ret(I(0))]))
         self.holder = None
         if r.random() < 0.5:
             self.make_holder()
@@ -434,6 +445,9 @@ class ObjGen:
                 dstat = [f["n"] for f in self.classes[d]["fields"] if f["static"]]
                 if dstat:
                     body.append(Echo(SFld(d, dstat[0])))
+        if self.scoped:
+            for k in r.sample([0, 1, 2], r.randint(1, 3)):
+                body.append(Echo(Call("scoped", I(k))))
         if self.gen_classes:
             body += self.generic_use()
         body.append(Echo(S("end of main")))
